@@ -122,6 +122,16 @@ CHECKS = {
          "substitution/prefixing/validity errors are term disequalities found for all parameter values; arbitrary translations outside the family are not covered.",
     design="3/C16", engine="symx+llsym",
     technique="symbolic execution of clang LLVM IR of the generated derived-model kernels under the real Python driver on z3 proxies; reference translation = the translation text as plain C executed by the same IR interpreter; z3 QF_UFNRA obligations; replay on the real DLLs of derived and base model"),
+ "C09": dict(
+    text="A fixed family of generated plugin definitions (1..8 parameters of every type, a vector parameter with control parameter, optional shell_volume, "
+         "effective-radius modes, validity predicate) is instantiated through the real make_model_info twice: with C leaves (real make_source -> LLVM IR -> symbolic "
+         "interpreter under the real DllKernel driver) and with Python leaves (real PyModel/PyKernel/_loops on z3 proxies); the leaves are the same uninterpreted "
+         "functions in both builds. With every parameter, mesh value/weight, cutoff and q symbolic z3 shows per path that the Python accumulators equal the documented "
+         "weighted sums, equal the C accumulators, and that the Kernel.Fq outputs coincide. parse_parameter on symbolic limits/default and enumerated ill-formed tables "
+         "(angle order/type/position, duplicates, 2-D function inconsistent with the table) must be refused. Right level: the drift between the Python loop and the C "
+         "template is a term disequality for all data values; arbitrary leaf formulas are deliberately abstracted.",
+    design="3/C09", engine="symx+llsym",
+    technique="symbolic execution of the real kernelpy loop on z3 proxies and of the clang LLVM IR of the generated C kernel for the same definition; z3 QF_UFNRA equality obligations; replay with concrete leaf formulas through the real PyKernel and the real DLL"),
 }
 
 NOT_YET = "check not built yet in this round (planned in DESIGN.md section 3); not claimed"
